@@ -359,9 +359,13 @@ def truncatewords(val: str, num: Any = 15, end: str = "...") -> str:
 @string_filter
 def url_encode(val: str, *, environment: Environment) -> str:
     """Return a percent-encoded copy of _val_ so it is useable in a URL."""
+    try:
+        encoded = urllib.parse.quote_plus(val)
+    except UnicodeEncodeError as err:
+        raise FilterError("can't encode string as UTF-8", token=None) from err
     if environment.autoescape:
-        return Markup(urllib.parse.quote_plus(val))
-    return urllib.parse.quote_plus(val)
+        return Markup(encoded)
+    return encoded
 
 
 @string_filter
@@ -374,7 +378,10 @@ def url_decode(val: str) -> str:
 @string_filter
 def base64_encode(val: str) -> str:
     """Return _val_ encoded in base64."""
-    return base64.b64encode(val.encode()).decode()
+    try:
+        return base64.b64encode(val.encode()).decode()
+    except UnicodeEncodeError as err:
+        raise FilterError("can't encode string as UTF-8", token=None) from err
 
 
 @string_filter
@@ -392,7 +399,10 @@ def base64_decode(val: str) -> str:
 @string_filter
 def base64_url_safe_encode(val: str) -> str:
     """Return _val_ encoded in URL-safe base64."""
-    return base64.urlsafe_b64encode(val.encode()).decode()
+    try:
+        return base64.urlsafe_b64encode(val.encode()).decode()
+    except UnicodeEncodeError as err:
+        raise FilterError("can't encode string as UTF-8", token=None) from err
 
 
 @string_filter
